@@ -105,3 +105,50 @@ func VerifC02_TemplateQuotaOnDynamicQueue() {
 	}
 	vReach("end")
 }
+
+// M2: the max-applications value of the parent's child template is in force on a rule-created queue, and an
+// application tag replaces it; a second application is admitted to run only while the count stays within it.
+func VerifC11_TemplateMaxAppsOnDynamicQueue() {
+	vPanics(false)
+	vUnwind(40)
+	tapps := vRange("tapps", 1, 3)
+	tag := vStr("tag", "", "1", "2", "3")
+	conf := configs.PartitionConfig{
+		Name: "default",
+		Queues: []configs.QueueConfig{{
+			Name: "root", Parent: true, SubmitACL: "*",
+			Queues: []configs.QueueConfig{{Name: "par", Parent: true, ChildTemplate: configs.ChildTemplate{MaxApplications: uint64(tapps)}}},
+		}},
+		PlacementRules: []configs.PlacementRule{{Name: "provided", Create: true}},
+	}
+	pc, err := newPartitionContext(conf, "rm-1", nil, false)
+	vAssert(err == nil && pc != nil, "world: partition created")
+	tags := map[string]string{}
+	if tag != "" {
+		tags["namespace.resourcemaxapps"] = tag
+	}
+	app := objects.NewApplication(&si.AddApplicationRequest{ApplicationID: "app-1", QueueName: "root.par.dyn", PartitionName: "default", Tags: tags},
+		security.UserGroup{User: "u1", Groups: []string{"g1"}}, &vRecorder{}, "rm-1")
+	aerr := pc.AddApplication(app)
+	vAssert(aerr == nil, "world: application accepted into the rule-created queue")
+	q := pc.GetQueue("root.par.dyn")
+	vAssert(q != nil, "world: dynamic queue exists")
+	want := uint64(tapps)
+	if tag != "" {
+		want = uint64(vQtyApps(tag))
+	}
+	vAssert(q.GetMaxApps() == want, "M2 the template's max-applications, replaced by the application tag when present, is in force on the rule-created queue")
+	vReach("end")
+}
+
+func vQtyApps(s string) int64 {
+	switch s {
+	case "1":
+		return 1
+	case "2":
+		return 2
+	case "3":
+		return 3
+	}
+	return 0
+}
